@@ -112,10 +112,12 @@ CHECKS = {
          "construction site carries the 32-bit markers the IDL implies (one never-serialised local excepted), the only narrow integer "
          "fields are IntType.bitWidth and RowGroup.ordinal; (b) a specification-level compact-protocol encoder/decoder and a "
          "code-shaped model of write_thrift/read_thrift, compared three ways (spec / model / compiled extension) on IDL-generated "
-         "values incl. list lengths 0/1/14/15/16 and megabyte strings, via the API and via independently encoded bytes.",
+         "values incl. list lengths 0/1/14/15/16 and megabyte strings, via the API and via independently encoded bytes; (c) proved for all "
+         "structures: spec decoder after spec encoder is the identity (spec_roundtrip_any_structure) and the model of to_bytes refines the "
+         "spec encoder wherever the structure has an IDL-level reading (serialiser_lossless), so its bytes decode to exactly that structure.",
          "Trusted: Lean kernel + standard axioms (decide +kernel, no native_decide); the three table translators (regex/ast extraction, "
-         "they fail loudly on an unknown shape); gcc build of the current cencoding.c. Round-trip of the model itself is tied by "
-         "correspondence, not yet proved in Lean (see DESIGN).",
+         "they fail loudly on an unknown shape); gcc build of the current cencoding.c. The model of the serialiser is tied to the compiled extension by "
+         "correspondence; its losslessness is a theorem (DESIGN 0.4).",
          "Lean 4 kernel-decided table obligations over regenerated tables + 3-way correspondence", "§6 C10"),
  "C12": ("Partial by nature: Lean 4 theorems are about the code-shaped models (explicit Fault for every out-of-buffer access or "
          "out-of-range shift): read_unsigned_var_int and read_rle are safe on every well-formed input, the 10-byte header scratch "
@@ -181,7 +183,8 @@ CHECKS = {
          "parquet.thrift, page headers, v1/v2 page layouts, PLAIN / dictionary / RLE / delta values, hybrid levels) is run on the real bytes of "
          "EVERY file a write produces: magic, footer length, every metadata field with the id and wire type the IDL declares, per chunk "
          "offsets / compressed and uncompressed sizes / num_values / null counts describing exactly the bytes present, pages tiling the "
-         "chunk, value counts adding up to the row count; and the decoded cells must equal the harness's own physical rendering of the "
+         "chunk, value counts adding up to the row count, every RLE / bit-packed run of every level and dictionary-index stream present in "
+         "full inside its page (hybridTight, proved to accept every conforming stream); and the decoded cells must equal the harness's own physical rendering of the "
          "frame incl. NULL vs NaN per nullability mode. Lean theorems: the building blocks this reader rests on (varint, zigzag, bit "
          "packing round trips of C11; IDL table obligations of C10).",
          "Trusted: Lean kernel + standard axioms; the Lean compiler for executing Spec.File; cramjam for decompressing page payloads; "
